@@ -78,6 +78,8 @@ type hist struct {
 	w     *world.World
 	facts []*fact
 	recs  []*rec
+	// newIKReported: creation stamps of intermediate keys already reported as created under a revoked system key
+	newIKReported map[int64]bool
 	steps []string
 	seed  int64
 	nfact int
@@ -417,6 +419,17 @@ func (h *hist) encrypt(s *sess) {
 	}
 	h.recs = append(h.recs, rc)
 	ikc := drr.Key.ParentKeyMeta.Created
+	if h.p.Oracles&OC03 != 0 {
+		// "a data key only under the partition's intermediate key": the record names the key of the partition the
+		// session was opened for, spelled exactly as the caller spelled it
+		want := "_IK_" + s.part + "_" + h.svc + "_" + h.prod
+		if h.w.Suffix != "" {
+			want += "_" + h.w.Suffix
+		}
+		if got := drr.Key.ParentKeyMeta.ID; got != want {
+			h.violate("c03-data-key-under-another-partitions-key", "encrypt for partition %q returned a record whose data key is wrapped under %q, the partition's intermediate key is %q", s.part, got, want)
+		}
+	}
 	h.logf("factory#%d %q encrypt#%d len=%d -> IK created %d (age %s)%s", s.fa.id, s.part, rc.n, len(payload), ikc, t.Sub(time.Unix(ikc, 0)), map[bool]string{true: " via Store", false: ""}[viaStore])
 	h.r.SetAdd("ik_generations", fmt.Sprintf("%d|%s|%d", h.seed, s.part, ikc))
 
@@ -542,6 +555,27 @@ func (h *hist) oracleC05(s *sess, rc *rec, drr *appencryption.DataRowRecord, t t
 		skid, skc := row.ParentKeyMeta.ID, row.ParentKeyMeta.Created
 		if tr, ok := h.flipTime(skid, skc); ok {
 			bound := 2*cfg.Revoke + h.slack
+			// "stops using it": an intermediate key that was *created* later than the bound after the flag (its stamp is
+			// not later than its real creation time) was wrapped by the revoked system key when that was no longer
+			// allowed - whatever the reason a replacement system key could not be made (a later stamp had been creatable
+			// ... for longer than the bound: the decision to keep the system key is taken before the new intermediate
+			// key is stamped, and the two may fall on different sides of a precision boundary)
+			from := tr
+			if cf := time.Unix(skc, 0).Add(cfg.Precision); cf.After(from) {
+				from = cf
+			}
+			if born := time.Unix(ikc, 0); born.After(from.Add(bound)) && !h.newIKReported[ikc] {
+				if h.newIKReported == nil {
+					h.newIKReported = map[int64]bool{}
+				}
+				h.newIKReported[ikc] = true
+				sig := "c05-new-ik-created-under-revoked-sk"
+				if h.seededByLoad(scopeOf(s), skid, skc, tr) {
+					sig += ":latest-alias-seeded-by-decrypt-load"
+				}
+				h.violate(sig, "SK (%s,%d) was flagged revoked at %s; IK (%s,%d) was created under it more than %s later and protects the record produced at %s [%s]",
+					skid, skc, tr.UTC().Format(time.RFC3339Nano), ikid, ikc, bound, t.UTC().Format(time.RFC3339Nano), cfg)
+			}
 			creatable := stamp > skc && stamp > ikc
 			newest := skc
 			if ikc > newest {
